@@ -138,6 +138,8 @@ def suffixes(C):
                     ({"autoescape": [".zz"]}, [{"op": "add", "tpls": tpls}, {"op": "autoescape", "suffixes": cfg}])]      # reconfigured afterwards
         if v["default"]:
             variants.append(({}, [{"op": "add", "tpls": tpls}]))                                                        # nothing configured
+        # registered from a file whose own extension (.tpl) says nothing: the NAME decides
+        variants.append(({"autoescape": cfg}, [{"op": "add", "tpls": tpls, "via": "files"}]))
         for c, steps in variants:
             jobs.append({"cfg": c, "ctx": {"v": "<"}, "steps": steps + [{"op": "state"}, {"op": "render", "name": name, "expect_ae": v["ae"]}]})
             meta.append((name, cfg, v["ae"], len(steps)))
